@@ -3264,7 +3264,8 @@ LEFT JOIN conversions ON {join_condition}{group_by}{order_clause}{limit_clause}
             if metric.agg == "sum":
                 select_exprs.append(f"SUM({raw_col}) as {metric_name}")
             elif metric.agg == "count":
-                select_exprs.append(f"SUM({raw_col}) as {metric_name}")
+                # COUNT over no rows is 0, SUM over no buckets is NULL
+                select_exprs.append(f"COALESCE(SUM({raw_col}), 0) as {metric_name}")
             elif metric.agg == "avg":
                 # AVG = SUM(sum_raw) / SUM(count_raw)
                 # Need to find the correct count measure from pre-agg
